@@ -70,8 +70,9 @@ def extract(ctx):
     unres = txt.split("def unresolved")[1]
     unknown += ["unresolved: " + a + " in " + f for f, a in re.findall(r'\("([^"]*)", "([^"]*)"\)', unres)]
     acc = re.findall(r'\("([^"]*)", "([^"]*)"\)', txt.split("def observerAccesses")[1].split("def ownWrites")[0])
-    cov["fact_debugger_is_read_only"] = "unknown" if unknown else "established-or-refuted-by-lean (observer_accesses_allowed, own_writes_locked)"
+    cov["fact_debugger_is_read_only"] = "unknown" if unknown else "established-or-refuted-by-lean (observer_accesses_allowed, own_writes_locked, debugger_read_at_eval_time)"
     cov["fact_accesses"] = sorted(set(a for _, a in acc))
+    cov["fact_debugger_uses"] = sorted(set(a for _, a in re.findall(r'\("([^"]*)", "([^"]*)"\)', txt.split("def debuggerUses")[1].split("def debuggerFields")[0])))
     cov["fact_functions_reachable"] = len(re.findall(r'"', txt.split("def reachable")[1].split("\n")[0])) // 2
     if unknown:
         ctx.notes.append("fact debugger_is_read_only is UNKNOWN (" + "; ".join(unknown[:5]) + "): no obligation is broken by that; "
@@ -100,7 +101,7 @@ SPEC = dict(
     rule=("cases = generated terminating programs (functions incl. bounded recursion and nested calls, loops, try/except/"
           "finally with raised and runtime errors, lists/maps, log output) x break point edit sequences (set/disable/"
           "remove) x scripts over {resume, stepin, stepover, stepout} with break point edits while suspended x "
-          "breakOnStart/breakOnError x 1-4 threads x timing {poll, window = Continue issued exactly between 'marked "
+          "breakOnStart/breakOnError x 1-4 threads x life cycle (library `lib` and program `main` loaded in steps, debugger attached before any parse / after the library ran / between two evaluations of the same AST / detached and re-attached / after parsing everything; break points on both sides of the attach point) x timing {poll, window = Continue issued exactly between 'marked "
           "suspended' and Wait via hook points, random delays at the hook points}; plus StopThreads cases. Compared: "
           "same=1 (result, error, log, global scope dump equal to the plain run) and the lines at which threads REPORT "
           "suspension (status/describe commands) against the model run on the visit trace recorded from the real "
